@@ -4,11 +4,16 @@
    run from an R-related state yields the result of the specification and an R-related state; [seq_refines_dictionary]
    is the induction over the list of operations.
 
-   Two side conditions are needed beyond well-formed requests (both are REQUIRED: without them the model and the
-   dictionary differ, see the comments at [op_locs_ok] and [op_stored_ok]):
-     - locs_ok:   committed locations are prefix-free, and fetch_paths is asked about a location strictly below data that
-                  is not a directory of the data tree (not a strict prefix of a committed location);
-     - stored_ok: sync_paths only points locations at keys stored earlier (the discipline of dds evaluations). *)
+   The relation comes in two forms: [Rp pid D] allows leftovers of dead processes (temporaries of pids other than [pid]
+   anywhere; directories D below data that no bound location accounts for) - this is what a file system looks like after
+   a crash, see Recovery.v - and [R] = Rp without any leftover.  Everything is proved for Rp
+   ([seq_refines_dictionary_with_leftovers]); the statements about R are corollaries.
+
+   Side conditions beyond well-formed requests (all REQUIRED: without them the model and the dictionary differ, see the
+   comments at [op_locs_ok], [op_stored_ok], [op_avoid]):
+     - locs_ok:   committed locations are prefix-free, and fetch_paths is asked about a location strictly below data;
+     - stored_ok: sync_paths only points locations at keys stored earlier (the discipline of dds evaluations);
+     - op_avoid D (only with leftovers): sync_paths does not commit a location that is a leftover directory. *)
 From Coq Require Import List Ascii String Bool Arith Lia.
 From DDS Require Import Base.Bytes L6_Conc.FsOps L6_Conc.LocalProgs L6_Conc.ConcSpec L6_Conc.CrashProofs.
 Import ListNotations.
@@ -81,20 +86,37 @@ Section Refine.
   Definition prefix_free (ls : list path) : Prop :=
     forall l l', In l ls -> In l' ls -> is_prefix l l' = true -> l = l'.
 
-  Definition R (fs : fsys) (st : astate) : Prop :=
+  (* [D]: directories of the data tree that no bound location accounts for (a process that crashed between makedirs and
+     the link swap leaves them behind); none when the store was only ever used by complete sequential runs *)
+  Definition zoneD (D : path -> Prop) (fs : fsys) (ps : list (path * bytes)) (x : path) : Prop :=
+    match lookup x ps with
+    | Some k => fs x = Some (NLink (blob k))
+    | None => if is_anc x ps then fs x = Some NDir else (fs x = None \/ (fs x = Some NDir /\ D x))
+    end.
+
+  (* the abstraction relation for a process [pid] that runs on a file system holding leftovers of dead processes *)
+  Definition Rp (pid : nat) (D : path -> Prop) (fs : fsys) (st : astate) : Prop :=
+    visible root = true /\ visible data = true /\
     (* the directories of the store exist *)
     (forall d, In d init_dirs -> fs d = Some NDir) /\
     fs data = Some NDir /\
     BlobInv fs /\ LinkInv fs /\
-    (* no temporary is left behind *)
-    (forall x, visible x = false -> fs x = None) /\
+    (* no temporary OF THIS PROCESS exists (temporaries of other pids may be anywhere) *)
+    (forall X b n, fs (X ++ [CTmp b pid n]) = None) /\
     (* stored keys = keys whose metadata file exists *)
     (forall k, good_key k = true -> (fs (meta k) <> None <-> In k (a_keys st))) /\
     (* bound locations: good requests, pointing at stored keys, prefix-free *)
     (forall l k, In (l, k) (a_paths st) -> good_key k = true /\ In k (a_keys st) /\ good_loc l) /\
     prefix_free (map fst (a_paths st)) /\
-    (* the data tree: links at bound locations, directories at their strict ancestors, nothing else *)
-    (forall segs, segs <> [] -> visible (data ++ segs) = true -> zone fs (a_paths st) (data ++ segs)).
+    (* the data tree: links at bound locations, directories at their strict ancestors, else nothing or a directory of D *)
+    (forall x, good_loc x -> zoneD D fs (a_paths st) x) /\
+    (* ... and it is a tree: below data, whatever exists sits in directories *)
+    (forall x d, good_loc x -> good_loc d -> sprefix d x = true -> fs x <> None -> fs d = Some NDir).
+
+  Definition no_dirs : path -> Prop := fun _ => False.
+  (* no leftovers at all: no temporary of anybody, no unaccounted directory *)
+  Definition R (fs : fsys) (st : astate) : Prop :=
+    Rp 0 no_dirs fs st /\ forall x, visible x = false -> fs x = None.
 
   (* ---- small facts about the dictionary ---- *)
   Lemma mem_In : forall k keys, mem k keys = true <-> In k keys.
@@ -434,14 +456,14 @@ Section Refine.
 
   Lemma store_steps : forall pid cnt todo outs fs k,
     visible root = true -> good_key k = true -> fs blobs_dir = Some NDir ->
-    (forall x, visible x = false -> fs x = None) ->
+    (forall X b n, fs (X ++ [CTmp b pid n]) = None) ->
     fs (blob k) <> Some NDir -> fs (meta k) <> Some NDir ->
     exists fs', steps fs (Proc pid cnt PIdle (OpStore k :: todo) outs) fs' (Proc pid (S (S cnt)) PIdle todo (outs ++ [RUnit])) /\
                 forall x, fs' x = store_fs fs k x.
   Proof.
     intros pid cnt todo outs fs k Hvr Hk Hbd Hnt Hb Hm.
     assert (Htmp : forall y c, fs (tmp_of y pid c) = None).
-    { intros y c. apply Hnt. rewrite tmp_of_shape. apply tmp_not_visible. }
+    { intros y c. rewrite tmp_of_shape. apply Hnt. }
     destruct (blob_phase pid cnt todo outs fs k Hvr Hbd (Htmp _ _) Hb) as (fs1 & Hs1 & Hf1).
     assert (Hbm : meta k <> blob k) by (intro E; symmetry in E; exact (blob_not_meta root k k Hk E)).
     destruct (meta_phase pid (S cnt) todo outs fs1 k Hvr) as (fs2 & Hs2 & Hf2).
@@ -505,7 +527,7 @@ Section Refine.
 
   Lemma item_steps : forall pid cnt todo outs fs loc k items,
     good_loc loc -> fs data = Some NDir ->
-    (forall x, visible x = false -> fs x = None) ->
+    (forall X b n, fs (X ++ [CTmp b pid n]) = None) ->
     (forall d, In d (anc_dirs loc) -> fs d = None \/ fs d = Some NDir) ->
     (fs_exists fs (parent loc) = true -> forall d, In d (anc_dirs loc) -> fs d = Some NDir) ->
     (fs loc = None \/ exists t, fs loc = Some (NLink t)) ->
@@ -551,7 +573,7 @@ Section Refine.
     - set (t := tmp_of loc pid cnt).
       assert (Htv : visible t = false) by (unfold t; rewrite tmp_of_shape; apply tmp_not_visible).
       assert (Ht1 : fs1 t = None).
-      { rewrite Hf1. rewrite existsb_path_notin; [apply Hnt; exact Htv|].
+      { rewrite Hf1. rewrite existsb_path_notin; [unfold t; rewrite tmp_of_shape; apply Hnt|].
         intro Hin. apply (anc_visible loc t Hl) in Hin. congruence. }
       assert (Hlt : loc <> t) by (intro E; rewrite <- E in Htv; congruence).
       assert (Hpt : parent loc <> t) by (intro E; rewrite <- E in Htv; rewrite (parent_visible _ Hvl) in Htv; discriminate).
@@ -569,7 +591,7 @@ Section Refine.
         * rewrite (upd_other _ _ _ _ Hpt). exact Hpar.
       + intro x. unfold item_fs. destruct (path_eq_dec x t) as [E|E].
         * subst x. rewrite upd_same. rewrite existsb_path_notin.
-          -- rewrite (path_eqb_neq t loc); [symmetry; apply Hnt; exact Htv|congruence].
+          -- rewrite (path_eqb_neq t loc); [symmetry; unfold t; rewrite tmp_of_shape; apply Hnt|congruence].
           -- intro Hin. apply (anc_visible loc t Hl) in Hin. congruence.
         * rewrite (upd_other _ _ _ _ E). destruct (path_eqb x loc) eqn:E2.
           -- apply path_eqb_eq in E2. subst x. rewrite upd_same.
@@ -614,7 +636,7 @@ Section Refine.
       red_pstep. unfold fs_exists. rewrite Hm. reflexivity.
   Qed.
 
-  Lemma fpath_absent : forall pid cnt todo outs fs loc, fs loc = None ->
+  Lemma fpath_absent : forall pid cnt todo outs fs loc, (fs loc = None \/ fs loc = Some NDir) ->
     steps fs (Proc pid cnt PIdle (OpFetchPath loc :: todo) outs) fs (Proc pid cnt PIdle todo (outs ++ [RErr])).
   Proof.
     intros pid cnt todo outs fs loc Hn.
@@ -623,7 +645,7 @@ Section Refine.
     - eapply steps_step; [reflexivity| |].
       { red_pstep. rewrite Ee. reflexivity. }
       apply steps_one; [reflexivity|].
-      red_pstep. unfold fs_islink, fs_exists. rewrite Hn. cbn [andb]. reflexivity.
+      red_pstep. unfold fs_islink. destruct Hn as [Hn|Hn]; rewrite Hn; cbn [andb]; reflexivity.
     - apply steps_one; [reflexivity|].
       red_pstep. rewrite Ee. reflexivity.
   Qed.
@@ -649,31 +671,53 @@ Section Refine.
     eapply steps_trans; [apply mkdirs_exist; exact H|]. apply st_mkdirs_nil_idle.
   Qed.
   (* ---------------------------------------------------------------------------------------------------------------- *)
-  (* consequences of R *)
-  Lemma R_exists_visible : forall fs st x n, R fs st -> fs x = Some n -> visible x = true.
+  (* consequences of Rp / R *)
+  Lemma R_Rp : forall fs st pid, R fs st -> Rp pid no_dirs fs st.
   Proof.
-    intros fs st x n (_ & _ & _ & _ & Hnt & _) Hx. destruct (visible x) eqn:E; [reflexivity|].
-    rewrite (Hnt x E) in Hx. discriminate.
+    intros fs st pid [(Hvr & Hvd & Hd & Hdata & HB & HL & _ & Hrest) Hnt].
+    repeat (split; [assumption|]). split; [|exact Hrest].
+    intros X b n. apply Hnt. apply tmp_not_visible.
   Qed.
 
-  Lemma R_blobs_dir : forall fs st, R fs st -> fs blobs_dir = Some NDir.
+  Lemma Rp_R : forall fs st pid, Rp pid no_dirs fs st -> (forall x, visible x = false -> fs x = None) -> R fs st.
   Proof.
-    intros fs st (Hd & _). apply Hd. unfold CrashProofs.init_dirs. apply in_or_app. right. apply in_or_app. right.
-    left. reflexivity.
+    intros fs st pid (Hvr & Hvd & Hd & Hdata & HB & HL & _ & Hrest) Hnt. split; [|exact Hnt].
+    repeat (split; [assumption|]). split; [|exact Hrest].
+    intros X b n. apply Hnt. apply tmp_not_visible.
+  Qed.
+
+  Lemma Rp_weaken : forall pid (D D' : path -> Prop) fs st, (forall x, D x -> D' x) -> Rp pid D fs st -> Rp pid D' fs st.
+  Proof.
+    intros pid D D' fs st HD (Hvr & Hvd & Hd & Hdata & HB & HL & Hnt & Hmk & Hwf & Hpf & Hz & HT).
+    repeat (split; [assumption|]). split; [|exact HT].
+    intros x Hx. specialize (Hz x Hx). unfold zoneD in *. destruct (lookup x (a_paths st)); [exact Hz|].
+    destruct (is_anc x (a_paths st)); [exact Hz|]. destruct Hz as [Hz|[Hz1 Hz2]]; [left; exact Hz|right; auto].
   Qed.
 
   Lemma R_visible_root : forall fs st, R fs st -> visible root = true.
+  Proof. intros fs st [H _]. apply H. Qed.
+  Lemma R_visible_data : forall fs st, R fs st -> visible data = true.
+  Proof. intros fs st [H _]. apply H. Qed.
+  Lemma R_exists_visible : forall fs st x n, R fs st -> fs x = Some n -> visible x = true.
   Proof.
-    intros fs st HR. pose proof (R_exists_visible fs st _ _ HR (R_blobs_dir fs st HR)) as H.
-    unfold LocalProgs.blobs_dir in H. eapply visible_app_l. exact H.
+    intros fs st x n [_ Hnt] Hx. destruct (visible x) eqn:E; [reflexivity|]. rewrite (Hnt x E) in Hx. discriminate.
   Qed.
 
-  Lemma R_visible_data : forall fs st, R fs st -> visible data = true.
-  Proof. intros fs st HR. pose proof HR as (_ & Hdata & _). exact (R_exists_visible fs st _ _ HR Hdata). Qed.
+  Lemma Rp_blobs_dir : forall pid D fs st, Rp pid D fs st -> fs blobs_dir = Some NDir.
+  Proof.
+    intros pid D fs st (_ & _ & Hd & _). apply Hd. unfold CrashProofs.init_dirs. apply in_or_app. right. apply in_or_app. right.
+    left. reflexivity.
+  Qed.
 
+  Lemma Rp_zone : forall pid D fs st loc, Rp pid D fs st -> good_loc loc -> zoneD D fs (a_paths st) loc.
+  Proof. intros pid D fs st loc (_ & _ & _ & _ & _ & _ & _ & _ & _ & _ & Hz & _) Hl. apply Hz. exact Hl. Qed.
+
+  (* without leftovers: links at bound locations, directories at their strict ancestors, nothing else *)
   Lemma R_zone : forall fs st loc, R fs st -> good_loc loc -> zone fs (a_paths st) loc.
   Proof.
-    intros fs st loc (_ & _ & _ & _ & _ & _ & _ & _ & Hz) [Hv (segs & Hne & E)]. subst loc. apply Hz; assumption.
+    intros fs st loc [HR _] Hl. pose proof (Rp_zone _ _ _ _ loc HR Hl) as Hz. unfold zone, zoneD in *.
+    destruct (lookup loc (a_paths st)); [exact Hz|]. destruct (is_anc loc (a_paths st)); [exact Hz|].
+    destruct Hz as [Hz|[_ []]]. exact Hz.
   Qed.
 
   (* the two directions quoted in the description of R *)
@@ -698,6 +742,19 @@ Section Refine.
     - split; [reflexivity|]. intros _. destruct (is_anc loc (a_paths st)); auto.
   Qed.
 
+  (* the same two facts with leftovers *)
+  Lemma Rp_link_iff : forall pid D fs st loc k, Rp pid D fs st -> good_loc loc ->
+    (fs loc = Some (NLink (blob k)) <-> lookup loc (a_paths st) = Some k).
+  Proof.
+    intros pid D fs st loc k HR Hl. pose proof (Rp_zone _ _ fs st loc HR Hl) as Hz. unfold zoneD in Hz.
+    destruct (lookup loc (a_paths st)) as [k'|] eqn:E.
+    - rewrite Hz. split; intro H.
+      + inversion H as [H1]. apply blob_inj in H1. congruence.
+      + congruence.
+    - split; [|discriminate]. intro H. destruct (is_anc loc (a_paths st)); [congruence|].
+      destruct Hz as [Hz|[Hz _]]; congruence.
+  Qed.
+
   Definition compat (ps : list (path * bytes)) (loc : path) : Prop :=
     forall l, In l (map fst ps) -> is_prefix l loc = true \/ is_prefix loc l = true -> l = loc.
 
@@ -715,24 +772,25 @@ Section Refine.
     apply (anc_dirs_spec loc d Hl). exists a, b. auto.
   Qed.
 
-  Lemma R_loc_free : forall fs st loc, R fs st -> good_loc loc -> compat (a_paths st) loc ->
+  Lemma Rp_loc_free : forall pid D fs st loc, Rp pid D fs st -> good_loc loc -> compat (a_paths st) loc -> ~ D loc ->
     fs loc = None \/ exists t, fs loc = Some (NLink t).
   Proof.
-    intros fs st loc HR Hl Hc. pose proof (R_zone fs st loc HR Hl) as Hz. unfold zone in Hz.
+    intros pid D fs st loc HR Hl Hc HD. pose proof (Rp_zone _ _ fs st loc HR Hl) as Hz. unfold zoneD in Hz.
     destruct (lookup loc (a_paths st)) as [k'|]; [right; eauto|].
-    destruct (is_anc loc (a_paths st)) eqn:Ea; [|left; exact Hz].
-    exfalso. apply is_anc_spec in Ea as (l & Hin & Hs). apply (sprefix_neq _ _ Hs). symmetry.
-    apply Hc; [exact Hin|]. right. apply sprefix_prefix. exact Hs.
+    destruct (is_anc loc (a_paths st)) eqn:Ea.
+    - exfalso. apply is_anc_spec in Ea as (l & Hin & Hs). apply (sprefix_neq _ _ Hs). symmetry.
+      apply Hc; [exact Hin|]. right. apply sprefix_prefix. exact Hs.
+    - destruct Hz as [Hz|[_ Hz]]; [left; exact Hz|contradiction].
   Qed.
 
-  Lemma R_anc : forall fs st loc d, R fs st -> good_loc loc -> compat (a_paths st) loc -> In d (anc_dirs loc) ->
+  Lemma Rp_anc : forall pid D fs st loc d, Rp pid D fs st -> good_loc loc -> compat (a_paths st) loc -> In d (anc_dirs loc) ->
     lookup d (a_paths st) = None /\ (fs d = None \/ fs d = Some NDir).
   Proof.
-    intros fs st loc d HR Hl Hc Hd. destruct (anc_is_prefix loc d Hl Hd) as [Hs Hgd].
-    pose proof (R_zone fs st d HR Hgd) as Hz. unfold zone in Hz.
+    intros pid D fs st loc d HR Hl Hc Hd. destruct (anc_is_prefix loc d Hl Hd) as [Hs Hgd].
+    pose proof (Rp_zone _ _ fs st d HR Hgd) as Hz. unfold zoneD in Hz.
     destruct (lookup d (a_paths st)) as [k'|] eqn:E.
     - exfalso. apply (sprefix_neq _ _ Hs). apply Hc; [eapply lookup_Some_dom; exact E|]. left. apply sprefix_prefix. exact Hs.
-    - split; [reflexivity|]. destruct (is_anc d (a_paths st)); auto.
+    - split; [reflexivity|]. destruct (is_anc d (a_paths st)); [auto|]. destruct Hz as [Hz|[Hz _]]; auto.
   Qed.
 
   Lemma parent_neq : forall loc : path, loc <> [] -> parent loc <> loc.
@@ -741,42 +799,43 @@ Section Refine.
     rewrite <- (app_nil_r a) in E at 1. apply app_inv_head in E. discriminate.
   Qed.
 
-  Lemma R_anc_closed : forall fs st loc, R fs st -> good_loc loc -> compat (a_paths st) loc ->
+  (* the data tree is a tree: when the parent exists, all the directories above exist *)
+  Lemma Rp_anc_closed : forall pid D fs st loc, Rp pid D fs st -> good_loc loc -> compat (a_paths st) loc ->
     fs_exists fs (parent loc) = true -> forall d, In d (anc_dirs loc) -> fs d = Some NDir.
   Proof.
-    intros fs st loc HR Hl Hc He d Hd.
+    intros pid D fs st loc HR Hl Hc He d Hd.
     destruct (parent_in_anc loc Hl) as [Ep|Hp].
-    - (* the parent is data: no ancestor below data *)
-      exfalso. apply (anc_dirs_spec loc d Hl) in Hd as (a & b & Ha & Hb & Hda & E).
+    - exfalso. apply (anc_dirs_spec loc d Hl) in Hd as (a & b & Ha & Hb & Hda & E).
       rewrite E in Ep. unfold parent in Ep. rewrite (removelast_app d Hb) in Ep. rewrite Hda in Ep.
       rewrite <- app_assoc in Ep. rewrite <- (app_nil_r data) in Ep at 2. apply app_inv_head in Ep.
       apply app_eq_nil in Ep as [Ep _]. congruence.
     - destruct (anc_is_prefix loc _ Hl Hp) as [Hsp Hgp].
-      destruct (R_anc fs st loc _ HR Hl Hc Hp) as [Hlp Hfp].
-      pose proof (R_zone fs st _ HR Hgp) as Hz. unfold zone in Hz. rewrite Hlp in Hz.
-      destruct (is_anc (parent loc) (a_paths st)) eqn:Ea.
-      + apply is_anc_spec in Ea as (l & Hin & Hs).
-        destruct (anc_is_prefix loc d Hl Hd) as [Hsd Hgd].
-        destruct (R_anc fs st loc d HR Hl Hc Hd) as [Hld _].
-        pose proof (R_zone fs st d HR Hgd) as Hzd. unfold zone in Hzd. rewrite Hld in Hzd.
-        assert (Hdp : is_prefix d (parent loc) = true).
-        { apply (anc_dirs_spec loc d Hl) in Hd as (a & b & Ha & Hb & Hda & E). apply is_prefix_spec.
-          exists (removelast b). rewrite E at 1. unfold parent. apply removelast_app. exact Hb. }
-        assert (Hda : is_anc d (a_paths st) = true).
-        { apply is_anc_spec. exists l. split; [exact Hin|]. eapply prefix_sprefix; eassumption. }
-        rewrite Hda in Hzd. exact Hzd.
-      + unfold fs_exists in He. rewrite Hz in He. discriminate.
+      destruct (Rp_anc _ _ fs st loc _ HR Hl Hc Hp) as [_ Hfp].
+      assert (Hpd : fs (parent loc) = Some NDir).
+      { destruct Hfp as [Hfp|Hfp]; [|exact Hfp]. unfold fs_exists in He. rewrite Hfp in He. discriminate. }
+      destruct (path_eq_dec d (parent loc)) as [E|E]; [rewrite E; exact Hpd|].
+      destruct (anc_is_prefix loc d Hl Hd) as [_ Hgd].
+      pose proof HR as (_ & _ & _ & _ & _ & _ & _ & _ & _ & _ & _ & HT).
+      apply (HT (parent loc) d Hgp Hgd); [|congruence].
+      unfold sprefix. apply andb_true_iff. split; [|apply negb_true_iff; apply path_eqb_neq; exact E].
+      apply (anc_dirs_spec loc d Hl) in Hd as (a & b & Ha & Hb & Hda & E'). apply is_prefix_spec.
+      exists (removelast b). rewrite E' at 1. unfold parent. apply removelast_app. exact Hb.
   Qed.
 
   Lemma is_anc_cons : forall d l k ps, is_anc d ((l, k) :: ps) = sprefix d l || is_anc d ps.
   Proof. reflexivity. Qed.
 
-  (* ---- R is preserved by the effect of store_blob ---- *)
-  Lemma R_store : forall fs fs' st k, separated -> R fs st -> good_key k = true ->
-    (forall x, fs' x = store_fs fs k x) -> R fs' (AState (k :: a_keys st) (a_paths st)).
+  Lemma tmp_neq_blob : forall X b pid n k, X ++ [CTmp b pid n] <> blob k.
+  Proof. intros X b pid n k E. unfold LocalProgs.blob in E. apply app_inj_tail in E as [_ E]. discriminate. Qed.
+  Lemma tmp_neq_meta : forall X b pid n k, X ++ [CTmp b pid n] <> meta k.
+  Proof. intros X b pid n k E. unfold LocalProgs.meta in E. apply app_inj_tail in E as [_ E]. discriminate. Qed.
+
+  (* ---- Rp is preserved by the effect of store_blob ---- *)
+  Lemma Rp_store : forall pid D fs fs' st k, separated -> Rp pid D fs st -> good_key k = true ->
+    (forall x, fs' x = store_fs fs k x) -> Rp pid D fs' (AState (k :: a_keys st) (a_paths st)).
   Proof.
-    intros fs fs' st k Hsep HR Hk Hf. pose proof (R_visible_root fs st HR) as Hvr.
-    destruct HR as (Hd & Hdata & HB & HL & Hnt & Hmk & Hwf & Hpf & Hz).
+    intros pid D fs fs' st k Hsep HR Hk Hf.
+    destruct HR as (Hvr & Hvd & Hd & Hdata & HB & HL & Hnt & Hmk & Hwf & Hpf & Hz & HT).
     assert (Hbm : blob k <> meta k) by (apply blob_not_meta; exact Hk).
     assert (Hkeep : forall x, x <> meta k -> x <> blob k -> fs' x = fs x).
     { intros x H1 H2. rewrite Hf. unfold store_fs. rewrite (path_eqb_neq _ _ H1), (path_eqb_neq _ _ H2). reflexivity. }
@@ -788,7 +847,11 @@ Section Refine.
     { intros x Hx. rewrite <- Hx. apply Hkeep; intro E; subst x.
       - destruct (HB k Hk) as [_ H2]. destruct (H2 _ Hx) as [E _]. discriminate.
       - destruct (HB k Hk) as [H1 _]. specialize (H1 _ Hx). discriminate. }
-    split; [|split; [|split; [|split; [|split; [|split; [|split; [|split]]]]]]].
+    assert (Hgz : forall x, good_loc x -> fs' x = fs x).
+    { intros x Hgl. apply Hkeep; intro E; apply (good_loc_not_in_blobs root data _ Hsep Hgl); rewrite E;
+        [apply meta_in_blobs|apply blob_in_blobs]. }
+    split; [exact Hvr|]. split; [exact Hvd|].
+    split; [|split; [|split; [|split; [|split; [|split; [|split; [|split; [|split]]]]]]]].
     - intros d Hin. apply Hnf. apply Hd. exact Hin.
     - apply Hnf. exact Hdata.
     - intros k' Hk'. destruct (HB k' Hk') as [B1 B2]. split.
@@ -803,9 +866,7 @@ Section Refine.
           -- apply blob_inj in E3. subst k'. exact Hfb.
           -- rewrite Hkeep; [exact E2|apply blob_not_meta; exact Hk'|exact E3].
     - intros loc t Hv Hl. apply (HL loc t Hv). rewrite <- Hkeep; [exact Hl| |]; intro E; subst loc; congruence.
-    - intros x Hx. rewrite Hkeep; [apply Hnt; exact Hx| |]; intro E; subst x.
-      + rewrite (meta_visible root k Hvr) in Hx. discriminate.
-      + rewrite (blob_visible root k Hvr) in Hx. discriminate.
+    - intros X b n. rewrite Hkeep; [apply Hnt|apply tmp_neq_meta|apply tmp_neq_blob].
     - intros k' Hk'. cbn [a_keys]. destruct (path_eq_dec (meta k') (meta k)) as [E|E].
       + apply meta_inj in E. subst k'. split; [intros _; left; reflexivity|intros _; rewrite Hfm; discriminate].
       + rewrite Hkeep; [|exact E|intro E'; symmetry in E'; exact (blob_not_meta root k k' Hk E')].
@@ -813,24 +874,20 @@ Section Refine.
     - intros l k0 Hin. cbn [a_paths a_keys] in *. destruct (Hwf l k0 Hin) as (A & B & C).
       split; [exact A|]. split; [right; exact B|exact C].
     - exact Hpf.
-    - intros segs Hne Hv. cbn [a_paths]. specialize (Hz segs Hne Hv).
-      assert (Hgl : good_loc (data ++ segs)) by (split; [exact Hv|exists segs; auto]).
-      assert (Hx : fs' (data ++ segs) = fs (data ++ segs)).
-      { apply Hkeep; intro E; apply (good_loc_not_in_blobs root data _ Hsep Hgl); rewrite E;
-          [apply meta_in_blobs|apply blob_in_blobs]. }
-      unfold zone in *. rewrite Hx. exact Hz.
+    - intros x Hgl. cbn [a_paths]. specialize (Hz x Hgl). unfold zoneD in *. rewrite (Hgz x Hgl). exact Hz.
+    - intros x d Hgx Hgd Hs Hx. rewrite (Hgz x Hgx) in Hx. rewrite (Hgz d Hgd). exact (HT x d Hgx Hgd Hs Hx).
   Qed.
 
-  (* ---- R is preserved by the effect of committing one location ---- *)
-  Lemma R_item : forall fs fs' st loc k, separated -> R fs st -> good_key k = true -> In k (a_keys st) ->
-    good_loc loc -> compat (a_paths st) loc ->
-    (forall x, fs' x = item_fs fs loc k x) -> R fs' (AState (a_keys st) ((loc, k) :: a_paths st)).
+  (* ---- Rp is preserved by the effect of committing one location ---- *)
+  Lemma Rp_item : forall pid D fs fs' st loc k, separated -> Rp pid D fs st -> good_key k = true -> In k (a_keys st) ->
+    good_loc loc -> compat (a_paths st) loc -> ~ D loc ->
+    (forall x, fs' x = item_fs fs loc k x) -> Rp pid D fs' (AState (a_keys st) ((loc, k) :: a_paths st)).
   Proof.
-    intros fs fs' st loc k Hsep HR Hk Hin Hl Hc Hf.
-    pose proof (R_loc_free fs st loc HR Hl Hc) as Hfree.
-    pose proof (fun d => R_anc fs st loc d HR Hl Hc) as Hanc.
-    pose proof (fun x => R_zone fs st x HR) as Hzone.
-    destruct HR as (Hd & Hdata & HB & HL & Hnt & Hmk & Hwf & Hpf & Hz).
+    intros pid D fs fs' st loc k Hsep HR Hk Hin Hl Hc HD Hf.
+    pose proof (Rp_loc_free _ _ fs st loc HR Hl Hc HD) as Hfree.
+    pose proof (fun d => Rp_anc _ _ fs st loc d HR Hl Hc) as Hanc.
+    pose proof (fun x => Rp_zone _ _ fs st x HR) as Hzone.
+    destruct HR as (Hvr & Hvd & Hd & Hdata & HB & HL & Hnt & Hmk & Hwf & Hpf & Hz & HT).
     assert (Hanc' : forall d, In d (anc_dirs loc) -> fs' d = Some NDir).
     { intros d H. rewrite Hf. unfold item_fs. rewrite (proj2 (existsb_path_In _ _) H). reflexivity. }
     assert (Hloc' : fs' loc = Some (NLink (blob k))).
@@ -844,7 +901,8 @@ Section Refine.
     assert (Hdk : forall x, fs x = Some NDir -> fs' x = Some NDir).
     { intros x Hx. destruct (in_dec path_eq_dec x (anc_dirs loc)) as [H|H]; [apply Hanc'; exact H|].
       rewrite Hother; [exact Hx|exact H|]. intro E. subst x. destruct Hfree as [Hn|[t Ht]]; congruence. }
-    split; [|split; [|split; [|split; [|split; [|split; [|split; [|split]]]]]]].
+    split; [exact Hvr|]. split; [exact Hvd|].
+    split; [|split; [|split; [|split; [|split; [|split; [|split; [|split; [|split]]]]]]]].
     - intros d H. apply Hdk. apply Hd. exact H.
     - apply Hdk. exact Hdata.
     - intros k' Hk'. rewrite (Hnb _ (blob_in_blobs root k')). rewrite (Hnb _ (meta_in_blobs root k')). exact (HB k' Hk').
@@ -853,9 +911,9 @@ Section Refine.
       + destruct (path_eq_dec x loc) as [E|E].
         * subst x. rewrite Hloc' in Hx. inversion Hx. exists k. auto.
         * rewrite (Hother x H E) in Hx. exact (HL x t Hv Hx).
-    - intros x Hx. rewrite Hother; [apply Hnt; exact Hx| |].
-      + intro H. rewrite (anc_visible loc x Hl H) in Hx. discriminate.
-      + intro E. subst x. rewrite (good_loc_visible data loc Hl) in Hx. discriminate.
+    - intros X b n. rewrite Hother; [apply Hnt| |].
+      + intro H. apply (anc_visible loc _ Hl) in H. rewrite tmp_not_visible in H. discriminate.
+      + intro E. pose proof (good_loc_visible data loc Hl) as Hv. rewrite <- E in Hv. rewrite tmp_not_visible in Hv. discriminate.
     - intros k' Hk'. cbn [a_keys]. rewrite (Hnb _ (meta_in_blobs root k')). exact (Hmk k' Hk').
     - intros l k0 H. cbn [a_paths a_keys] in *. destruct H as [H|H]; [inversion H; subst; auto|exact (Hwf l k0 H)].
     - intros l l' H1 H2 Hp. cbn [a_paths map fst] in H1, H2. destruct H1 as [H1|H1], H2 as [H2|H2].
@@ -863,9 +921,7 @@ Section Refine.
       + subst l. symmetry. apply Hc; [exact H2|]. right. exact Hp.
       + subst l'. apply Hc; [exact H1|]. left. exact Hp.
       + exact (Hpf l l' H1 H2 Hp).
-    - intros segs Hne Hv. cbn [a_paths]. set (x := data ++ segs).
-      assert (Hgx : good_loc x) by (split; [exact Hv|exists segs; auto]).
-      unfold zone. cbn [lookup]. rewrite is_anc_cons.
+    - intros x Hgx. cbn [a_paths]. unfold zoneD. cbn [lookup]. rewrite is_anc_cons.
       destruct (path_eqb x loc) eqn:E.
       + apply path_eqb_eq in E. rewrite E. exact Hloc'.
       + assert (Hxl : x <> loc) by (intro E'; rewrite E' in E; rewrite path_eqb_refl in E; discriminate).
@@ -875,7 +931,19 @@ Section Refine.
         * assert (Hs : sprefix x loc = false).
           { destruct (sprefix x loc) eqn:Es; [|reflexivity]. exfalso. apply H. apply sprefix_in_anc; assumption. }
           rewrite Hs. cbn [orb]. rewrite (Hother x H Hxl). exact (Hzone x Hgx).
+    - intros x d Hgx Hgd Hs Hx.
+      assert (Hxd : forall y, good_loc y -> sprefix d y = true -> fs y <> None -> fs' d = Some NDir).
+      { intros y Hgy Hsy Hy. apply Hdk. exact (HT y d Hgy Hgd Hsy Hy). }
+      destruct (in_dec path_eq_dec x (anc_dirs loc)) as [H|H].
+      + (* x is one of the directories above loc: so is d *)
+        apply Hanc'. apply sprefix_in_anc; [exact Hl|exact Hgd|].
+        destruct (anc_is_prefix loc x Hl H) as [Hsx _].
+        eapply prefix_sprefix; [apply sprefix_prefix; exact Hs|exact Hsx].
+      + destruct (path_eq_dec x loc) as [E|E].
+        * subst x. apply Hanc'. apply sprefix_in_anc; assumption.
+        * rewrite (Hother x H E) in Hx. exact (Hxd x Hgx Hs Hx).
   Qed.
+
   (* ---------------------------------------------------------------------------------------------------------------- *)
   (* side conditions on the requests *)
   (* committed locations stay prefix-free: a location bound by sync_paths is comparable with no other bound location *)
@@ -885,14 +953,13 @@ Section Refine.
     | it :: r => compat ps (fst it) /\ items_locs_ok (pupd (fst it) (snd it) ps) r
     end.
 
-  (* [op_locs_ok] for fetch_paths is REQUIRED: the model answers RKey loc (not RErr) for any existing name that is not a
-     link, e.g. OpSync [(data/d/p, k)]; OpFetchPath (data/d)  gives  RKey (data/d), and OpFetchPath blobs_dir gives
-     RKey blobs_dir, whereas the dictionary has no binding there.  So the location asked about must lie strictly below
-     data and must not be a directory of the data tree (a strict prefix of a bound location). *)
+  (* fetch_paths is asked about a location strictly below data.  (Before fix of PP_stat_loc the location also had to be
+     no directory of the data tree: the model answered RKey (data/d) for a directory; with the islink test it answers
+     RErr like the dictionary, so that condition is gone.  Outside data the relation R says nothing about links.) *)
   Definition op_locs_ok (st : astate) (o : opcall) : Prop :=
     match o with
     | OpSync items => items_locs_ok (a_paths st) items
-    | OpFetchPath loc => good_loc loc /\ forall l, In l (map fst (a_paths st)) -> is_prefix loc l = true -> l = loc
+    | OpFetchPath loc => good_loc loc
     | _ => True
     end.
   (* [op_stored_ok] is REQUIRED: OpSync [(loc, k)]; OpFetchPath loc  with k never stored leaves a dangling link, for
@@ -900,6 +967,14 @@ Section Refine.
   Definition op_stored_ok (st : astate) (o : opcall) : Prop :=
     match o with
     | OpSync items => forall loc k, In (loc, k) items -> In k (a_keys st)
+    | _ => True
+    end.
+  (* [op_avoid D] is REQUIRED when leftovers exist: a directory that a crashed process created on the way to a location it
+     never committed (D) cannot be replaced by a link: os.replace(tmp, dir) fails.  E.g. a process crashes in
+     sync_paths [(data/d/p, k)] after mkdir data/d; a later sync_paths [(data/d, k)] raises. *)
+  Definition op_avoid (D : path -> Prop) (o : opcall) : Prop :=
+    match o with
+    | OpSync items => forall loc k, In (loc, k) items -> ~ D loc
     | _ => True
     end.
 
@@ -914,70 +989,86 @@ Section Refine.
     | o :: r => op_stored_ok st o /\ stored_ok (fst (spec_op st o)) r
     end.
 
+  Lemma avoid_no_dirs : forall ops, Forall (op_avoid no_dirs) ops.
+  Proof. intro ops. apply Forall_forall. intros o _. destruct o; simpl; auto; try (intros loc k _ []). Qed.
+
   (* ---------------------------------------------------------------------------------------------------------------- *)
   (* one operation *)
-  Lemma sync_refines : forall items pid cnt todo outs fs st, separated -> R fs st ->
+  Lemma steps_cnt_mono : forall fa pa fb pb, steps fa pa fb pb -> p_cnt pa <= p_cnt pb.
+  Proof.
+    intros fa pa fb pb H. induction H as [|fa pa fb pb fc pc Hl Hs Hr IH]; [lia|].
+    destruct (pstep_cnt root data enc menc fa pa (whole pa)) as [Hc _]. rewrite Hs in Hc. simpl in Hc. lia.
+  Qed.
+
+  Lemma sync_refines : forall items pid D cnt todo outs fs st, separated -> Rp pid D fs st ->
     (forall loc k, In (loc, k) items -> good_key k = true /\ good_loc loc) ->
     (forall loc k, In (loc, k) items -> In k (a_keys st)) ->
     items_locs_ok (a_paths st) items ->
+    (forall loc k, In (loc, k) items -> ~ D loc) ->
     exists fs' cnt', steps fs (Proc pid cnt (PSP_next items) todo outs) fs' (Proc pid cnt' PIdle todo (outs ++ [RUnit])) /\
-                     cnt <= cnt' /\ R fs' (AState (a_keys st) (sync_paths items (a_paths st))).
+                     cnt <= cnt' /\ Rp pid D fs' (AState (a_keys st) (sync_paths items (a_paths st))) /\
+                     forall x, visible x = false -> fs' x = fs x.
   Proof.
-    induction items as [|[loc k] items IH]; intros pid cnt todo outs fs st Hsep HR Hg Hst Hlo.
-    - exists fs, cnt. split; [apply steps_one; reflexivity|]. split; [lia|]. destruct st as [ks ps]. exact HR.
+    induction items as [|[loc k] items IH]; intros pid D cnt todo outs fs st Hsep HR Hg Hst Hlo Hav.
+    - exists fs, cnt. split; [apply steps_one; reflexivity|]. split; [lia|]. destruct st as [ks ps]. split; [exact HR|reflexivity].
     - destruct (Hg loc k (or_introl eq_refl)) as [Hk Hl]. cbn [items_locs_ok fst snd] in Hlo. destruct Hlo as [Hc Hlo].
-      pose proof HR as (_ & Hdata & _ & _ & Hnt & _).
+      pose proof (Hav loc k (or_introl eq_refl)) as HD.
+      pose proof HR as (_ & _ & _ & Hdata & _ & _ & Hnt & _).
       destruct (item_steps pid cnt todo outs fs loc k items Hl Hdata Hnt) as (fs1 & cnt1 & Hs1 & Hf1).
-      { intros d Hd. apply (R_anc fs st loc d HR Hl Hc Hd). }
-      { apply (R_anc_closed fs st loc HR Hl Hc). }
-      { apply (R_loc_free fs st loc HR Hl Hc). }
-      assert (HR1 : R fs1 (AState (a_keys st) ((loc, k) :: a_paths st))).
-      { apply (R_item fs fs1 st loc k Hsep HR Hk); [apply Hst with loc; left; reflexivity|exact Hl|exact Hc|exact Hf1]. }
-      destruct (IH pid cnt1 todo outs fs1 _ Hsep HR1) as (fs' & cnt' & Hs' & Hle & HR').
+      { intros d Hd. apply (Rp_anc _ _ fs st loc d HR Hl Hc Hd). }
+      { apply (Rp_anc_closed _ _ fs st loc HR Hl Hc). }
+      { apply (Rp_loc_free _ _ fs st loc HR Hl Hc HD). }
+      assert (HR1 : Rp pid D fs1 (AState (a_keys st) ((loc, k) :: a_paths st))).
+      { apply (Rp_item pid D fs fs1 st loc k Hsep HR Hk); [apply Hst with loc; left; reflexivity|exact Hl|exact Hc|exact HD|exact Hf1]. }
+      destruct (IH pid D cnt1 todo outs fs1 _ Hsep HR1) as (fs' & cnt' & Hs' & Hle & HR' & Hfr).
       { intros l' k' H. apply Hg. right. exact H. }
       { intros l' k' H. cbn [a_keys]. apply Hst with l'. right. exact H. }
       { exact Hlo. }
-      exists fs', cnt'. split; [eapply steps_trans; [exact Hs1|exact Hs']|]. split; [|exact HR'].
-      (* the counter never decreases: read it off item_steps *)
-      clear - Hle Hs1. 
-      assert (Hmono : forall fa pa fb pb, steps fa pa fb pb -> p_cnt pa <= p_cnt pb).
-      { intros fa pa fb pb H. induction H as [|fa pa fb pb fc pc Hl Hs Hr IH]; [lia|].
-        destruct (pstep_cnt root data enc menc fa pa (whole pa)) as [Hc _]. rewrite Hs in Hc. simpl in Hc. lia. }
-      apply Hmono in Hs1. simpl in Hs1. lia.
+      { intros l' k' H. apply Hav with k'. right. exact H. }
+      exists fs', cnt'. split; [eapply steps_trans; [exact Hs1|exact Hs']|]. split; [|split; [exact HR'|]].
+      + apply steps_cnt_mono in Hs1. simpl in Hs1. lia.
+      + intros x Hx. rewrite (Hfr x Hx). rewrite Hf1. unfold item_fs. rewrite existsb_path_notin.
+        * rewrite path_eqb_neq; [reflexivity|]. intro E. subst x. rewrite (good_loc_visible data loc Hl) in Hx. discriminate.
+        * intro H. rewrite (anc_visible loc x Hl H) in Hx. discriminate.
   Qed.
 
-  Lemma R_has : forall fs st k, R fs st -> good_key k = true -> fs_exists fs (meta k) = mem k (a_keys st).
+  Lemma Rp_has : forall pid D fs st k, Rp pid D fs st -> good_key k = true -> fs_exists fs (meta k) = mem k (a_keys st).
   Proof.
-    intros fs st k (_ & _ & HB & _ & _ & Hmk & _) Hk. unfold fs_exists.
+    intros pid D fs st k (_ & _ & _ & _ & HB & _ & _ & Hmk & _) Hk. unfold fs_exists.
     destruct (fs (meta k)) as [n|] eqn:E.
     - destruct (HB k Hk) as [_ H2]. destruct (H2 _ E) as [En _]. subst n. symmetry. apply mem_In. apply (Hmk k Hk). congruence.
     - destruct (mem k (a_keys st)) eqn:Em; [|reflexivity]. apply mem_In in Em. apply (Hmk k Hk) in Em. contradiction.
   Qed.
 
-  Lemma op_refines : forall fs st pid cnt todo outs o, separated -> R fs st ->
-    good_op o -> op_locs_ok st o -> op_stored_ok st o ->
+  Lemma op_refines_p : forall pid D fs st cnt todo outs o, separated -> Rp pid D fs st ->
+    good_op o -> op_locs_ok st o -> op_stored_ok st o -> op_avoid D o ->
     exists fs' cnt', steps fs (Proc pid cnt PIdle (o :: todo) outs)
                            fs' (Proc pid cnt' PIdle todo (outs ++ [snd (spec_op st o)])) /\
-                     cnt <= cnt' /\ R fs' (fst (spec_op st o)).
+                     cnt <= cnt' /\ Rp pid D fs' (fst (spec_op st o)) /\
+                     forall x, visible x = false -> fs' x = fs x.
   Proof.
-    intros fs st pid cnt todo outs o Hsep HR Hg Hlo Hso.
+    intros pid D fs st cnt todo outs o Hsep HR Hg Hlo Hso Hav.
     destruct o as [|k|items|k|k|loc]; cbn [spec_op fst snd].
-    - (* init *) exists fs, cnt. split; [apply init_steps; apply HR|]. split; [lia|exact HR].
-    - (* store *) simpl in Hg. pose proof HR as (_ & _ & HB & _ & Hnt & _).
-      destruct (store_steps pid cnt todo outs fs k (R_visible_root fs st HR) Hg (R_blobs_dir fs st HR) Hnt) as (fs' & Hs & Hf).
+    - (* init *) exists fs, cnt. split; [apply init_steps; apply HR|]. split; [lia|]. split; [exact HR|reflexivity].
+    - (* store *) simpl in Hg. pose proof HR as (Hvr & _ & _ & _ & HB & _ & Hnt & _).
+      destruct (store_steps pid cnt todo outs fs k Hvr Hg (Rp_blobs_dir _ _ fs st HR) Hnt) as (fs' & Hs & Hf).
       { intro E. destruct (HB k Hg) as [H1 _]. specialize (H1 _ E). discriminate. }
       { intro E. destruct (HB k Hg) as [_ H2]. destruct (H2 _ E) as [H3 _]. discriminate. }
-      exists fs', (S (S cnt)). split; [exact Hs|]. split; [lia|]. apply (R_store fs fs' st k Hsep HR Hg Hf).
-    - (* sync *) simpl in Hg, Hlo, Hso.
-      destruct (sync_refines items pid cnt todo outs fs st Hsep HR) as (fs' & cnt' & Hs & Hle & HR').
+      exists fs', (S (S cnt)). split; [exact Hs|]. split; [lia|]. split; [apply (Rp_store pid D fs fs' st k Hsep HR Hg Hf)|].
+      intros x Hx. rewrite Hf. unfold store_fs. rewrite !path_eqb_neq; [reflexivity| |]; intro E; subst x.
+      + rewrite (blob_visible root k Hvr) in Hx. discriminate.
+      + rewrite (meta_visible root k Hvr) in Hx. discriminate.
+    - (* sync *) simpl in Hg, Hlo, Hso, Hav.
+      destruct (sync_refines items pid D cnt todo outs fs st Hsep HR) as (fs' & cnt' & Hs & Hle & HR' & Hfr).
       { intros l k H. exact (Hg l k H). }
       { exact Hso. }
       { exact Hlo. }
-      exists fs', cnt'. split; [eapply steps_trans; [apply st_start|exact Hs]|]. split; assumption.
-    - (* has *) simpl in Hg. exists fs, cnt. split; [|split; [lia|exact HR]].
-      rewrite <- (R_has fs st k HR Hg). apply has_steps.
-    - (* fetch *) simpl in Hg. exists fs, cnt. split; [|split; [lia|exact HR]].
-      pose proof HR as (_ & _ & HB & _ & _ & Hmk & _). destruct (HB k Hg) as [B1 B2].
+      { exact Hav. }
+      exists fs', cnt'. split; [eapply steps_trans; [apply st_start|exact Hs]|]. split; [assumption|]. split; assumption.
+    - (* has *) simpl in Hg. exists fs, cnt. split; [|split; [lia|split; [exact HR|reflexivity]]].
+      rewrite <- (Rp_has _ _ fs st k HR Hg). apply has_steps.
+    - (* fetch *) simpl in Hg. exists fs, cnt. split; [|split; [lia|split; [exact HR|reflexivity]]].
+      pose proof HR as (_ & _ & _ & _ & HB & _ & _ & Hmk & _). destruct (HB k Hg) as [B1 B2].
       destruct (mem k (a_keys st)) eqn:Em.
       + apply mem_In in Em. apply (Hmk k Hg) in Em. destruct (fs (meta k)) as [n|] eqn:E; [|congruence].
         destruct (B2 _ eq_refl) as [En Eb]. subst n. apply fetch_present; assumption.
@@ -985,43 +1076,73 @@ Section Refine.
         * destruct (fs (meta k)) as [n|] eqn:E; [|reflexivity]. exfalso.
           assert (H : In k (a_keys st)) by (apply (Hmk k Hg); congruence). apply mem_In in H. congruence.
         * destruct (fs (blob k)) as [n|] eqn:E; [|left; reflexivity]. right. exists (enc k). rewrite (B1 _ eq_refl). reflexivity.
-    - (* fetch_paths *) simpl in Hlo. destruct Hlo as [Hl Hnp]. exists fs, cnt. split; [|split; [lia|exact HR]].
-      pose proof (R_zone fs st loc HR Hl) as Hz. unfold zone in Hz.
-      pose proof HR as (_ & Hdata & HB & _ & _ & Hmk & Hwf & Hpf & _).
+    - (* fetch_paths *) simpl in Hlo. rename Hlo into Hl. exists fs, cnt. split; [|split; [lia|split; [exact HR|reflexivity]]].
+      pose proof (Rp_zone _ _ fs st loc HR Hl) as Hz. unfold zoneD in Hz.
+      pose proof HR as (_ & _ & _ & Hdata & HB & _ & _ & Hmk & Hwf & Hpf & _ & HT).
       destruct (lookup loc (a_paths st)) as [k|] eqn:E.
       + destruct (Hwf loc k (lookup_In _ _ _ E)) as (Hk & Hin & _).
         apply fpath_present with (enc k); [|exact Hz|].
         * destruct (parent_in_anc loc Hl) as [Ep|Hp]; [rewrite Ep; exact Hdata|].
           destruct (anc_is_prefix loc _ Hl Hp) as [Hs Hgp].
-          pose proof (R_zone fs st _ HR Hgp) as Hzp. unfold zone in Hzp.
-          destruct (lookup (parent loc) (a_paths st)) as [k'|] eqn:E'.
-          -- exfalso. apply (sprefix_neq _ _ Hs). apply Hpf; [eapply lookup_Some_dom; exact E'|eapply lookup_Some_dom; exact E|].
-             apply sprefix_prefix. exact Hs.
-          -- assert (Ha : is_anc (parent loc) (a_paths st) = true).
-             { apply is_anc_spec. exists loc. split; [eapply lookup_Some_dom; exact E|exact Hs]. }
-             rewrite Ha in Hzp. exact Hzp.
+          apply (HT loc (parent loc) Hl Hgp Hs). congruence.
         * apply (Hmk k Hk) in Hin. destruct (fs (meta k)) as [n|] eqn:Em; [|congruence].
           destruct (HB k Hk) as [_ B2]. apply (B2 _ Em).
-      + apply fpath_absent. destruct (is_anc loc (a_paths st)) eqn:Ea; [|exact Hz].
-        exfalso. apply is_anc_spec in Ea as (l & Hin & Hs). apply (sprefix_neq _ _ Hs). symmetry.
-        apply Hnp; [exact Hin|apply sprefix_prefix; exact Hs].
+      + apply fpath_absent. destruct (is_anc loc (a_paths st)); [right; exact Hz|].
+        destruct Hz as [Hz|[Hz _]]; [left; exact Hz|right; exact Hz].
+  Qed.
+
+  (* the same without leftovers *)
+  Lemma op_refines : forall fs st pid cnt todo outs o, separated -> R fs st ->
+    good_op o -> op_locs_ok st o -> op_stored_ok st o ->
+    exists fs' cnt', steps fs (Proc pid cnt PIdle (o :: todo) outs)
+                           fs' (Proc pid cnt' PIdle todo (outs ++ [snd (spec_op st o)])) /\
+                     cnt <= cnt' /\ R fs' (fst (spec_op st o)).
+  Proof.
+    intros fs st pid cnt todo outs o Hsep HR Hg Hlo Hso.
+    destruct (op_refines_p pid no_dirs fs st cnt todo outs o Hsep (R_Rp fs st pid HR) Hg Hlo Hso)
+      as (fs' & cnt' & Hs & Hle & HR' & Hfr).
+    { destruct o; simpl; auto; try (intros loc k _ []). }
+    exists fs', cnt'. split; [exact Hs|]. split; [exact Hle|]. apply (Rp_R _ _ pid HR').
+    intros x Hx. rewrite (Hfr x Hx). destruct HR as [_ Hnt]. apply Hnt. exact Hx.
   Qed.
 
   (* ---------------------------------------------------------------------------------------------------------------- *)
   (* a list of operations *)
-  Lemma seq_refines_steps : forall ops fs st pid cnt outs, separated -> R fs st ->
-    Forall good_op ops -> locs_ok st ops -> stored_ok st ops ->
+  Lemma seq_refines_steps : forall ops pid D fs st cnt outs, separated -> Rp pid D fs st ->
+    Forall good_op ops -> locs_ok st ops -> stored_ok st ops -> Forall (op_avoid D) ops ->
     exists fs' cnt', steps fs (Proc pid cnt PIdle ops outs) fs' (Proc pid cnt' PIdle [] (outs ++ spec_run st ops)) /\
-                     cnt <= cnt' /\ R fs' (spec_state st ops).
+                     cnt <= cnt' /\ Rp pid D fs' (spec_state st ops) /\
+                     forall x, visible x = false -> fs' x = fs x.
   Proof.
-    induction ops as [|o ops IH]; intros fs st pid cnt outs Hsep HR Hg Hlo Hso.
-    - exists fs, cnt. cbn [spec_run spec_state]. rewrite app_nil_r. split; [apply steps_refl|]. split; [lia|exact HR].
-    - inversion Hg as [|o' ops' Hgo Hgr]; subst. cbn [locs_ok stored_ok] in Hlo, Hso.
+    induction ops as [|o ops IH]; intros pid D fs st cnt outs Hsep HR Hg Hlo Hso Hav.
+    - exists fs, cnt. cbn [spec_run spec_state]. rewrite app_nil_r. split; [apply steps_refl|]. split; [lia|]. split; [exact HR|reflexivity].
+    - inversion Hg as [|o' ops' Hgo Hgr]; subst. inversion Hav as [|o' ops' Hav1 Hav2]; subst.
+      cbn [locs_ok stored_ok] in Hlo, Hso.
       destruct Hlo as [Hlo1 Hlo2]. destruct Hso as [Hso1 Hso2].
-      destruct (op_refines fs st pid cnt ops outs o Hsep HR Hgo Hlo1 Hso1) as (fs1 & cnt1 & Hs1 & Hle1 & HR1).
-      destruct (IH fs1 _ pid cnt1 (outs ++ [snd (spec_op st o)]) Hsep HR1 Hgr Hlo2 Hso2) as (fs' & cnt' & Hs' & Hle' & HR').
-      exists fs', cnt'. cbn [spec_run spec_state]. split; [|split; [lia|exact HR']].
-      rewrite <- app_assoc in Hs'. eapply steps_trans; [exact Hs1|exact Hs'].
+      destruct (op_refines_p pid D fs st cnt ops outs o Hsep HR Hgo Hlo1 Hso1 Hav1) as (fs1 & cnt1 & Hs1 & Hle1 & HR1 & Hfr1).
+      destruct (IH pid D fs1 _ cnt1 (outs ++ [snd (spec_op st o)]) Hsep HR1 Hgr Hlo2 Hso2 Hav2)
+        as (fs' & cnt' & Hs' & Hle' & HR' & Hfr').
+      exists fs', cnt'. cbn [spec_run spec_state]. split; [|split; [lia|split; [exact HR'|]]].
+      + rewrite <- app_assoc in Hs'. eapply steps_trans; [exact Hs1|exact Hs'].
+      + intros x Hx. rewrite (Hfr' x Hx). apply Hfr1. exact Hx.
+  Qed.
+
+  (* The refinement on a file system that holds leftovers of dead processes: temporaries of other pids anywhere, and
+     directories D that no bound location accounts for.  Names that are not visible are left exactly as they were. *)
+  Theorem seq_refines_dictionary_with_leftovers : forall D fs st p ops,
+    separated -> Rp (p_pid p) D fs st ->
+    p_pc p = PIdle -> p_outs p = [] -> p_todo p = ops ->
+    Forall good_op ops -> locs_ok st ops -> stored_ok st ops -> Forall (op_avoid D) ops ->
+    exists fuel, let '(fs', p', _) := run_seq fuel fs p [] in
+      p_pc p' = PIdle /\ p_todo p' = [] /\ p_outs p' = spec_run st ops /\
+      Rp (p_pid p) D fs' (spec_state st ops) /\
+      (forall x, visible x = false -> fs' x = fs x).
+  Proof.
+    intros D fs st [pid cnt pc todo outs] ops Hsep HR Hpc Houts Htodo Hg Hlo Hso Hav.
+    cbn [p_pc p_outs p_todo p_pid] in *. subst pc outs todo.
+    destruct (seq_refines_steps ops pid D fs st cnt [] Hsep HR Hg Hlo Hso Hav) as (fs' & cnt' & Hs & _ & HR' & Hfr).
+    destruct (steps_run_seq _ _ _ _ Hs) as [fuel Hf]. destruct (Hf []) as [t Ht].
+    exists fuel. rewrite Ht. cbn [p_pc p_todo p_outs app]. auto.
   Qed.
 
   Theorem seq_refines_dictionary : forall fs st p ops,
@@ -1031,11 +1152,14 @@ Section Refine.
     exists fuel, let '(fs', p', _) := run_seq fuel fs p [] in
       p_pc p' = PIdle /\ p_todo p' = [] /\ p_outs p' = spec_run st ops /\ R fs' (spec_state st ops).
   Proof.
-    intros fs st [pid cnt pc todo outs] ops Hsep HR Hpc Houts Htodo Hg Hlo Hso. cbn [p_pc p_outs p_todo] in *. subst pc outs todo.
-    destruct (seq_refines_steps ops fs st pid cnt [] Hsep HR Hg Hlo Hso) as (fs' & cnt' & Hs & _ & HR').
-    destruct (steps_run_seq _ _ _ _ Hs) as [fuel Hf]. destruct (Hf []) as [t Ht].
-    exists fuel. rewrite Ht. cbn [p_pc p_todo p_outs app]. auto.
+    intros fs st p ops Hsep HR Hpc Houts Htodo Hg Hlo Hso.
+    destruct (seq_refines_dictionary_with_leftovers no_dirs fs st p ops Hsep (R_Rp fs st (p_pid p) HR) Hpc Houts Htodo
+                Hg Hlo Hso (avoid_no_dirs ops)) as [fuel H].
+    exists fuel. destruct (run_seq fuel fs p []) as [[fs' p'] t]. destruct H as (H1 & H2 & H3 & H4 & H5).
+    split; [exact H1|]. split; [exact H2|]. split; [exact H3|]. apply (Rp_R _ _ _ H4).
+    intros x Hx. rewrite (H5 x Hx). destruct HR as [_ Hnt]. apply Hnt. exact Hx.
   Qed.
+
   (* ---------------------------------------------------------------------------------------------------------------- *)
   (* R is satisfiable: exactly the directories of the store exist, nothing is stored, nothing is committed *)
   Definition init_fs : fsys := fun x =>
@@ -1084,21 +1208,26 @@ Section Refine.
     assert (Hnb : forall x, in_blobs root x -> init_fs x = None).
     { intros x Hx. destruct (init_fs x) as [n|] eqn:E; [|reflexivity]. apply init_fs_some in E as [_ E].
       destruct (Hg x E) as (_ & H & _). contradiction. }
-    split; [|split; [|split; [|split; [|split; [|split; [|split; [|split]]]]]]].
+    assert (Hnt : forall x, visible x = false -> init_fs x = None).
+    { intros x Hx. destruct (init_fs x) as [n|] eqn:E; [|reflexivity]. apply init_fs_some in E as [_ E].
+      destruct (Hg x E) as (H & _). congruence. }
+    assert (Hgl : forall x, good_loc x -> init_fs x = None).
+    { intros x [_ (segs & Hne & Ex)]. destruct (init_fs x) as [n|] eqn:E; [|reflexivity]. apply init_fs_some in E as [_ E].
+      destruct (Hg _ E) as (_ & _ & H). exfalso. exact (H segs Hne Ex). }
+    split; [|exact Hnt]. split; [exact Hvr|]. split; [exact Hvd|].
+    split; [|split; [|split; [|split; [|split; [|split; [|split; [|split; [|split]]]]]]]].
     - intros d Hd. unfold init_fs. rewrite (proj2 (existsb_path_In _ _) Hd). rewrite orb_true_r. reflexivity.
     - unfold init_fs. rewrite path_eqb_refl. rewrite orb_true_r. reflexivity.
     - intros k Hk. split; intros n Hn.
       + rewrite (Hnb _ (blob_in_blobs root k)) in Hn. discriminate.
       + rewrite (Hnb _ (meta_in_blobs root k)) in Hn. discriminate.
     - intros loc t _ H. apply init_fs_some in H as [H _]. discriminate.
-    - intros x Hx. destruct (init_fs x) as [n|] eqn:E; [|reflexivity]. apply init_fs_some in E as [_ E].
-      destruct (Hg x E) as (H & _). congruence.
+    - intros X b n. apply Hnt. apply tmp_not_visible.
     - intros k Hk. cbn [a_keys]. rewrite (Hnb _ (meta_in_blobs root k)). split; [congruence|intros []].
     - intros l k [].
     - intros l l' [].
-    - intros segs Hne Hv. unfold zone. cbn [a_paths lookup is_anc existsb].
-      destruct (init_fs (data ++ segs)) as [n|] eqn:E; [|reflexivity]. apply init_fs_some in E as [_ E].
-      destruct (Hg _ E) as (_ & _ & H). exfalso. exact (H segs Hne eq_refl).
+    - intros x Hx. unfold zoneD. cbn [a_paths lookup is_anc existsb]. left. apply Hgl. exact Hx.
+    - intros x d Hx _ _ H. rewrite (Hgl x Hx) in H. congruence.
   Qed.
 
   (* ---------------------------------------------------------------------------------------------------------------- *)
@@ -1245,7 +1374,7 @@ Proof.
   assert (Hlo : locs_ok ex_root ex_data (fun k => k) (fun k => k) (AState [] []) sx_ops).
   { cbn [locs_ok sx_ops op_locs_ok spec_op fst items_locs_ok a_paths a_keys sync_paths fold_left pupd snd].
     split; [exact I|]. split; [exact I|]. split; [split; [intros l []|exact I]|]. split; [exact I|]. split; [exact I|].
-    split; [|exact I]. split; [exact Hgl|]. intros l [H|[]] _. symmetry. exact H. }
+    split; [exact Hgl|exact I]. }
   assert (Hso : stored_ok ex_root (fun k => k) (fun k => k) (AState [] []) sx_ops).
   { cbn [stored_ok sx_ops op_stored_ok spec_op fst a_keys a_paths]. split; [exact I|]. split; [exact I|]. split; [|repeat split].
     intros loc k [H|[]]. inversion H. left. reflexivity. }
